@@ -20,8 +20,7 @@ import (
 // VERIF_YIELD_FINE=1 a yield is also put before every assignment whose
 // left-hand side is an index or selector expression. /repo itself is never
 // touched. Returns the number of sites and instrumented files.
-func injectYields(root string) (int, int, error) {
-	fine := os.Getenv("VERIF_YIELD_FINE") == "1"
+func injectYields(root string, fine bool) (int, int, error) {
 	var sites []string
 	files := 0
 	skipDirs := map[string]bool{"cmd": true, "contrib": true, "verifhook": true, "simhook": true, "examples": true}
